@@ -350,6 +350,7 @@ def c07(tier, rng, rep, only=None):
     per_variant = {}
     for g in runs:
         dropped = run_guard(g, rep, rng)
+        profile_crosscheck(g, rep)
         for did, msgs in dropped.items():
             mv = g.model_verdict.get(did, "")
             if not mv.startswith("reject"):
@@ -506,6 +507,7 @@ def c06(tier, rng, rep, only=None):
         g.add_ops(d, [("from_str", val_sexp(("s", s))) for s in numeric_strings(d, r)])
     g = make_guard_run(tier, rng, decls=only, ops_for=ops_for, spec=False)
     run_guard(g, rep, rng)
+    profile_crosscheck(g, rep)
     n = 0
     cls = {}
     for c in g.cases:
@@ -890,6 +892,7 @@ def c13(tier, rng, rep, only=None):
         g.add_ops(d, ops)
     g = make_guard_run(tier, rng, decls=only, ops_for=ops_for, spec=False)
     run_guard(g, rep, rng)
+    profile_crosscheck(g, rep)
     n = nviews = npairs = 0
     fields = {}
     for c in g.cases:
@@ -1128,6 +1131,7 @@ def c11(tier, rng, rep, only=None):
         g.add_ops(d, ops)
     g = make_guard_run(tier, rng, decls=decls, ops_for=ops_for, spec=False)
     run_guard(g, rep, rng)
+    profile_crosscheck(g, rep)
     # second round: every obtained value through every derived entry point
     g2 = flows.GuardRun(g.ws.name, g.decls)
     g2.ws = g.ws
@@ -1453,6 +1457,9 @@ def c08(tier, rng, rep, only=None):
         runs.append(("verdict" if tier == "quick" else "verdict_t", verdicts.gen_verdict_decls(rng.fork("v"), tier) +
                      guardcorpus.build_corpus(rng.fork("g"), "quick")[::7], runner.FEATURES_ALL))
         runs.append(("verdict_nofeat", verdicts.gen_feature_decls(rng.fork("w"), tier), ["std"]))
+        # every feature gate on its own: an item is accepted iff ITS feature is enabled
+        for f_ in ("serde", "regex", "arbitrary", "new_unchecked"):
+            runs.append(("verdict_only_" + f_, verdicts.gen_feature_decls(rng.fork("w"), tier), ["std", f_]))
     for wsname, decls, feats in runs:
         g, dropped = verdict_run(wsname, decls, feats, rep, rng)
         for d in decls:
